@@ -8,6 +8,7 @@ import FontVerif.Lemmas.ReadIter
 set_option linter.unusedVariables false
 set_option linter.unusedSimpArgs false
 namespace FontVerif.C01HandAat
-open FontVerif FontVerif.ReadIter FontVerif.HandRead FontVerif.HandAat
+open FontVerif FontVerif.HandRead FontVerif.HandAat
+open FontVerif.ReadIter (Out run items trapped)
 
 end FontVerif.C01HandAat
